@@ -548,6 +548,9 @@ func runC09(c *lib.Ctx) {
 	if only == "" || strings.Contains(only, "format") {
 		r.sweepFormat()
 	}
+	if only == "" || strings.Contains(only, "forms") {
+		r.sweepForms()
+	}
 	r.writeCandidates()
 	c.Ev.Coverage["nontrivial_counted"] = r.nontrivial
 	c.Ev.Coverage["traces_validated_against_impl"] = r.evals
